@@ -21,6 +21,10 @@
 //! without having been woken), every result is delivered exactly once, and when `step` returns `None`
 //! every unfinished task is registered with a channel without token or awaits an unfinished child.
 
+//!
+//! `n <script> / <script> / …` cases: `Executor::step` called from INSIDE a poll (nested polling and the
+//! recursion guard of `Task::poll`); see `run_nested`.
+
 use std::cell::RefCell;
 use std::collections::{HashMap, VecDeque};
 use std::future::Future;
@@ -1115,6 +1119,23 @@ fn run_line(line: &str) {
         }
         return;
     }
+    if let Some(rest) = line.strip_prefix("n ") {
+        let Some(scripts) = rest.split('/').map(parse_nscript).collect::<Option<Vec<_>>>() else {
+            emit(line, "bad-case", "-");
+            return;
+        };
+        let mut out = (String::new(), String::new());
+        let o = guarded(|| {
+            out = run_nested(&scripts);
+            out.0.clone()
+        });
+        if o.starts_with("PANIC") {
+            emit(line, &o, &format!("FAIL:{o}"));
+        } else {
+            emit(line, &out.0, &out.1);
+        }
+        return;
+    }
     if let Some(rest) = line.strip_prefix("v ") {
         let Some((case, ops)) = parse_ops_case(rest) else {
             emit(line, "bad-case", "-");
@@ -1146,6 +1167,255 @@ fn run_line(line: &str) {
     } else {
         emit(line, &out.0, &out.1);
     }
+}
+
+// ------------------------------------------------------------------------------------------------
+// `n` cases: `Executor::step` called from inside a poll (model: lean/YashModel/Executor/NestedModel.lean)
+
+#[derive(Clone, Copy, PartialEq, Eq, Debug)]
+enum NAct {
+    /// wake the own waker, return `Pending`
+    Y,
+    /// wake task u through the waker it stored when first polled (no-op if it never was), go on
+    Wk(usize),
+    /// call `Executor::step` from inside this poll, go on
+    N,
+    /// return `Ready`
+    C,
+}
+
+fn parse_nscript(t: &str) -> Option<Vec<NAct>> {
+    let ws: Vec<&str> = t.split_whitespace().collect();
+    if ws == ["-"] {
+        return Some(vec![]);
+    }
+    ws.iter()
+        .map(|w| match *w {
+            "Y" => Some(NAct::Y),
+            "N" => Some(NAct::N),
+            "C" => Some(NAct::C),
+            _ => w.strip_prefix('w').and_then(|r| r.parse().ok()).map(NAct::Wk),
+        })
+        .collect()
+}
+
+fn show_nscript(s: &[NAct]) -> String {
+    if s.is_empty() {
+        return "-".into();
+    }
+    s.iter()
+        .map(|a| match a {
+            NAct::Y => "Y".to_string(),
+            NAct::N => "N".to_string(),
+            NAct::C => "C".to_string(),
+            NAct::Wk(u) => format!("w{u}"),
+        })
+        .collect::<Vec<_>>()
+        .join(" ")
+}
+
+#[derive(Default)]
+struct NWorld {
+    toks: Vec<String>,
+    /// the future of task t is being polled right now
+    active: Vec<bool>,
+    done: Vec<bool>,
+    /// somebody woke task t while its poll was in progress (the only way the guard can fire)
+    woken_active: Vec<bool>,
+    wakers: Vec<Option<Waker>>,
+    /// readiness reported by the most recent future poll that returned
+    last_exit: Option<bool>,
+    entered: usize,
+    fails: Vec<String>,
+    exec: Option<Executor<'static>>,
+}
+
+struct NTask {
+    id: usize,
+    script: Vec<NAct>,
+    pc: usize,
+    world: Rc<RefCell<NWorld>>,
+}
+
+impl NTask {
+    fn leave(&self, ready: bool) {
+        let mut w = self.world.borrow_mut();
+        w.active[self.id] = false;
+        if ready {
+            w.done[self.id] = true;
+        }
+        w.last_exit = Some(ready);
+        w.toks.push(format!("x{}{}", self.id, if ready { "r" } else { "p" }));
+    }
+}
+
+impl Future for NTask {
+    type Output = ();
+    fn poll(mut self: Pin<&mut Self>, cx: &mut Context<'_>) -> Poll<()> {
+        let id = self.id;
+        {
+            let mut w = self.world.borrow_mut();
+            if w.active[id] {
+                w.fails.push(format!("reentrant-poll:{id}"));
+            }
+            if w.done[id] {
+                w.fails.push(format!("poll-after-complete:{id}"));
+            }
+            w.active[id] = true;
+            w.woken_active[id] = false;
+            w.entered += 1;
+            w.toks.push(format!("e{id}"));
+            if w.wakers[id].is_none() {
+                w.wakers[id] = Some(cx.waker().clone());
+            }
+        }
+        loop {
+            let a = self.script.get(self.pc).copied();
+            match a {
+                None | Some(NAct::C) => {
+                    self.leave(true);
+                    return Poll::Ready(());
+                }
+                Some(NAct::Y) => {
+                    self.pc += 1;
+                    self.world.borrow_mut().woken_active[id] = true;
+                    cx.waker().wake_by_ref();
+                    self.leave(false);
+                    return Poll::Pending;
+                }
+                Some(NAct::Wk(u)) => {
+                    self.pc += 1;
+                    let wk = {
+                        let mut w = self.world.borrow_mut();
+                        let wk = w.wakers.get(u).cloned().flatten();
+                        if wk.is_some() && w.active[u] {
+                            w.woken_active[u] = true;
+                        }
+                        wk
+                    };
+                    if let Some(wk) = wk {
+                        wk.wake_by_ref();
+                    }
+                }
+                Some(NAct::N) => {
+                    self.pc += 1;
+                    let (exec, before) = {
+                        let w = self.world.borrow();
+                        (w.exec.clone().expect("executor"), w.entered)
+                    };
+                    // the borrow of the world is released: the nested poll runs other futures of this file
+                    let r = exec.step();
+                    let mut w = self.world.borrow_mut();
+                    match r {
+                        None => w.toks.push("i".into()),
+                        Some(b) => {
+                            if w.entered == before {
+                                // `Task::poll` on an emptied slot
+                                if !b {
+                                    w.fails.push("noop-poll-returned-false".into());
+                                }
+                                w.toks.push("~".into());
+                            } else if w.last_exit != Some(b) {
+                                w.fails.push(format!("nested-step-bool:{b}"));
+                            }
+                        }
+                    }
+                }
+            }
+        }
+    }
+}
+
+/// Observation: the events of every top-level `Executor::step` — `e<t>` future of t entered, `x<t>p|r` it
+/// returned `Pending`/`Ready`, `~` poll of an emptied slot, `i` nested `step` returned `None`, `G` the
+/// recursion guard panicked — closed by `|<wake_count>`; then the final `wake_count`, how the run ended, the
+/// finished tasks.  Oracle: no future entered while it is active or after it finished; the guard fires only
+/// when a task was woken during its own poll; the `bool` of `step` is the readiness of the poll it made;
+/// `try_receive` says `Ok` exactly for the finished tasks.
+fn run_nested(scripts: &[Vec<NAct>]) -> (String, String) {
+    let n = scripts.len();
+    let exec: Executor<'static> = Executor::new();
+    let world = Rc::new(RefCell::new(NWorld {
+        active: vec![false; n],
+        done: vec![false; n],
+        woken_active: vec![false; n],
+        wakers: vec![None; n],
+        exec: Some(exec.clone()),
+        ..Default::default()
+    }));
+    let mut receivers = vec![];
+    for (id, sc) in scripts.iter().enumerate() {
+        let t = NTask { id, script: sc.clone(), pc: 0, world: Rc::clone(&world) };
+        receivers.push(unsafe { exec.spawn(t) });
+    }
+    let mut end = "cut";
+    for _ in 0..MAX_STEPS {
+        let before = world.borrow().entered;
+        let r = std::panic::catch_unwind(std::panic::AssertUnwindSafe(|| exec.step()));
+        match r {
+            Ok(None) => {
+                end = "stall";
+                break;
+            }
+            Ok(Some(b)) => {
+                let mut w = world.borrow_mut();
+                if w.entered == before {
+                    if !b {
+                        w.fails.push("noop-poll-returned-false".into());
+                    }
+                    w.toks.push("~".into());
+                } else if w.last_exit != Some(b) {
+                    w.fails.push(format!("step-bool:{b}"));
+                }
+                if w.active.iter().any(|a| *a) {
+                    w.fails.push("active-after-step".into());
+                }
+                let wc = exec.wake_count();
+                w.toks.push(format!("|{wc}"));
+            }
+            Err(p) => {
+                let msg = p
+                    .downcast_ref::<String>()
+                    .cloned()
+                    .or_else(|| p.downcast_ref::<&str>().map(|s| s.to_string()))
+                    .unwrap_or_default();
+                if !msg.contains("should not be polled recursively") {
+                    std::panic::resume_unwind(p);
+                }
+                let mut w = world.borrow_mut();
+                w.toks.push("G".into());
+                // the guard may only fire for a task that is being polled AND was woken meanwhile
+                if !(0..n).any(|t| w.active[t] && w.woken_active[t]) {
+                    w.fails.push("guard-without-cause".into());
+                }
+                end = "panic";
+                break;
+            }
+        }
+    }
+    let wc = exec.wake_count();
+    let mut w = world.borrow_mut();
+    for (t, rx) in receivers.iter().enumerate() {
+        let r = rx.try_receive();
+        let want_ok = w.done[t];
+        if r.is_ok() != want_ok {
+            w.fails.push(format!("receiver:{t}"));
+        }
+    }
+    let done: Vec<String> = (0..n).filter(|t| w.done[*t]).map(|t| t.to_string()).collect();
+    let obs = format!(
+        "{} | wc={wc} end={end} done={}",
+        w.toks.join(" "),
+        if done.is_empty() { "-".to_string() } else { done.join(".") }
+    );
+    let oracle = if w.fails.is_empty() { "ok".to_string() } else { format!("FAIL:{}", w.fails.join(";")) };
+    // break the cycles world -> executor -> tasks -> futures -> world
+    w.exec = None;
+    w.wakers.clear();
+    drop(w);
+    drop(receivers);
+    drop(exec);
+    (obs, oracle)
 }
 
 // ------------------------------------------------------------------------------------------------
@@ -1391,5 +1661,70 @@ fn main() {
     }
     if counting {
         eprintln!("random outside-operation cases: {n}");
+    }
+
+    // ---- `n`: `Executor::step` from inside a poll: every tuple of scripts over {Y, N, w<u>} up to a size, then random
+    lines.set(0);
+    let nplan: &[(usize, usize, usize)] =
+        if o.thorough() { &[(1, 5, 1), (2, 4, 1), (3, 3, 7), (4, 2, 3)] } else { &[(1, 4, 1), (2, 3, 1), (3, 2, 1)] };
+    for &(nt, len, stride) in nplan {
+        let mut alpha = vec![NAct::Y, NAct::N];
+        alpha.extend((0..nt).map(NAct::Wk));
+        let mut scripts: Vec<Vec<NAct>> = vec![vec![]];
+        let mut layer: Vec<Vec<NAct>> = vec![vec![]];
+        for _ in 0..len {
+            let mut next = vec![];
+            for l in &layer {
+                for a in &alpha {
+                    let mut c = l.clone();
+                    c.push(*a);
+                    next.push(c);
+                }
+            }
+            scripts.extend(next.iter().cloned());
+            layer = next;
+        }
+        let total = scripts.len().pow(nt as u32);
+        let mut k = 0usize;
+        while k < total {
+            let mut idx = k;
+            let mut tuple = vec![];
+            for _ in 0..nt {
+                tuple.push(show_nscript(&scripts[idx % scripts.len()]));
+                idx /= scripts.len();
+            }
+            emit_line(&format!("n {}", tuple.join(" / ")));
+            k += stride;
+        }
+    }
+    if counting {
+        eprintln!("nested-step systems: {} cases", lines.get());
+    }
+    let mut rng = Rng::new(o.seed ^ 0xC15_2E57);
+    let n = if o.thorough() { 200_000 } else { 20_000 };
+    for k in 0..n {
+        let mut r = rng.fork();
+        if counting || k % sn != si {
+            continue;
+        }
+        let nt = 1 + r.below(6);
+        let scripts: Vec<String> = (0..nt)
+            .map(|_| {
+                let len = r.below(9);
+                let sc: Vec<NAct> = (0..len)
+                    .map(|_| match r.below(10) {
+                        0..=2 => NAct::Y,
+                        3..=5 => NAct::N,
+                        6 => NAct::C,
+                        _ => NAct::Wk(r.below(nt)),
+                    })
+                    .collect();
+                show_nscript(&sc)
+            })
+            .collect();
+        run_line(&format!("n {}", scripts.join(" / ")));
+    }
+    if counting {
+        eprintln!("random nested-step cases: {n}");
     }
 }
